@@ -636,7 +636,8 @@ def rule_R4(ctx, f):
                 d = ds[ct[0]]
                 ctx.ob(rid, "HISTOGRAM|count-line", d[1] is None and d[4] and is_call(d[3], ["get_sample_count", "sample_count"]) and h_of(d[3][2][0]), "_count must carry get_sample_count() as f64", site=cc.span)
                 order = b.dominates(cs.bb, cc.bb) and cs.bb != cc.bb and all(cs.bb in b.reach(x.bb, avoid_blocks=stop) for x in (cb, ci)) and ci.bb in b.reach(cb.bb, avoid_blocks=stop) and cb.bb not in b.reach(ci.bb, avoid_blocks=stop) and ci.bb not in b.reach(cs.bb, avoid_blocks=stop)
-                order = order and count_range_region(b, [cs.bb], arms["HISTOGRAM"], stop) == (1, 1) and count_range_region(b, [cc.bb], arms["HISTOGRAM"], stop) == (1, 1)
+                from pvrules.rules import once_per_region
+                order = order and all(count_range_region(b, [x.bb], arms["HISTOGRAM"], stop) == (1, 1) or once_per_region(b, x.bb, arms["HISTOGRAM"], stop) for x in (cs, cc))
                 ctx.ob(rid, "HISTOGRAM|order", order, "lines must come in the order buckets, +Inf, _sum, _count; _sum and _count exactly once", site=cs.span)
     if "SUMMARY" in arms:
         reg = regions.get("SUMMARY", set())
